@@ -698,7 +698,7 @@ pub fn run_c09(ctx: &mut Ctx) {
     let szxs: &[u8] = if level == 0 { &[0, 1] } else { &[0, 1, 2, 3, 4, 5, 6] };
     for &szx in szxs {
         let s = szx_size(szx);
-        for mult in 0..=4usize {
+        for mult in 0..=(if level == 0 { 2usize } else { 4 }) {
             for d in -2i64..=2 {
                 let len = mult as i64 * s as i64 + d;
                 if len < 0 || len > 5000 {
@@ -707,7 +707,7 @@ pub fn run_c09(ctx: &mut Ctx) {
                 let len = len as usize;
                 for variant in 0..4 {
                     idx += 1;
-                    if idx % nshards != shard {
+                    if idx % nshards != shard || (level == 0 && (idx / nshards) % 3 != 0) {
                         continue;
                     }
                     let body = body_bytes(len as u64 * 31 + szx as u64, len);
@@ -768,7 +768,7 @@ pub fn run_c09(ctx: &mut Ctx) {
         ul_one(rep, m, &cfg, &mut ids, Scope::Transfer);
     }
     // 4.13 for un-negotiated large requests
-    let n413 = (budget / 4).max(40);
+    let n413 = if level == 0 { 12 } else { (budget / 4).max(40) };
     for _ in 0..n413 {
         rep.eval();
         let mut req = ReqSpec::new(*r.pick(&[2u8, 3]), &["big"]);
